@@ -49,6 +49,7 @@ FUNCS = [
     ("BaToBytearray", "context_cpu.py", "BufferByteArray.to_bytearray", "BII"),
     # X = an XBuffer object: a record of the attributes `buffer` (bytes), `capacity`, `chunks` (a list of Chunk records)
     ("Grow", "context.py", "XBuffer.grow", "XI"),
+    ("GetFree", "context.py", "XBuffer.get_free", "X"),
     ("ChunkSize", "context.py", "Chunk.size", "O"),
     ("ChunkOverlaps", "context.py", "Chunk.overlaps", "OO"),
     ("ChunkMerge", "context.py", "Chunk.merge", "OO"),
@@ -73,6 +74,7 @@ class Tr:
         self.raises = any(isinstance(n, ast.Raise) for n in ast.walk(fn))
         self.mutated = set()
         self.uses = set()
+        self.chunk_vars = set()
 
     def is_last_chunk(self, sub):
         v, i = sub.value, sub.slice
@@ -97,7 +99,16 @@ class Tr:
         if len(gens) != 1 or gens[0].ifs or gens[0].is_async:
             raise Unsupported("comprehension with several generators / conditions")
         g = gens[0]
-        return f"(List.map (fun {self.pat(g.target)} => {self.e(elt)}) {self.e(g.iter)})"
+        chunk_var = None
+        if isinstance(g.iter, ast.Attribute) and isinstance(g.iter.value, ast.Name) and g.iter.attr == "chunks" \
+                and self.kind_of(g.iter.value.id) == "X" and isinstance(g.target, ast.Name):
+            chunk_var = g.target.id
+            self.chunk_vars.add(chunk_var)
+        try:
+            return f"(List.map (fun {self.pat(g.target)} => {self.e(elt)}) {self.e(g.iter)})"
+        finally:
+            if chunk_var:
+                self.chunk_vars.discard(chunk_var)
 
     def e(self, x):
         if isinstance(x, ast.Constant):
@@ -113,6 +124,12 @@ class Tr:
                 return f"{x.value.id}.buffer_"
             if isinstance(x.value, ast.Name) and x.attr in {"buffer", "capacity", "chunks"} and self.kind_of(x.value.id) == "X":
                 return f"{x.value.id}.{x.attr}_"
+            if isinstance(x.value, ast.Name) and x.value.id in self.chunk_vars:
+                if x.attr in OBJ_FIELDS:
+                    return f"{x.value.id}.{x.attr}_"
+                if x.attr == "size":                  # the property Chunk.size
+                    self.uses.add("ChunkSize")
+                    return f"(XoGen.Chunk_size {x.value.id})"
             # self.chunks[-1].start / .end
             if x.attr in OBJ_FIELDS and isinstance(x.value, ast.Subscript) and self.is_last_chunk(x.value):
                 return f"(Py.last {self.e(x.value.value)}).{x.attr}_"
@@ -197,6 +214,8 @@ class Tr:
                 return self.e(args[0])
             if n == "zip" and len(args) == 2:
                 return f"(List.zip {self.e(args[0])} {self.e(args[1])})"
+            if n == "sum" and len(args) == 1 and isinstance(args[0], ast.ListComp):
+                return f"(Py.sum {self.comp(args[0].elt, args[0].generators)})"
             if n == "sum" and len(args) == 1 and isinstance(args[0], ast.GeneratorExp):
                 return f"(Py.sum {self.comp(args[0].elt, args[0].generators)})"
             if n in SIBLINGS:
